@@ -50,6 +50,9 @@ pub fn limit_search(seed: u64) -> String {
             v.extend([full.len() - 1, full.len(), full.len() + 1]);
             v
         };
+        // limits that are not sizes anybody could allocate ("no limit" idioms) must behave like any other
+        let mut lims = lims;
+        lims.extend([usize::MAX, usize::MAX - 1, isize::MAX as usize, isize::MAX as usize + 1, u32::MAX as usize + 1]);
         for l in lims {
             cases += 1;
             let r = node_to_bytes_limit(&a, n, l);
@@ -59,7 +62,7 @@ pub fn limit_search(seed: u64) -> String {
                     hex(&full), full.len(), format!("{r:?}").replace('"', "'").chars().take(80).collect::<String>(),
                     if full.len() <= l { "Ok(unlimited serialization)" } else { "Err(OutOfMemory)" });
             }
-            if l <= full_br.len() + 1 {
+            if l <= full_br.len() + 1 || l > u32::MAX as usize {
                 let r = node_to_bytes_backrefs_limit(&a, n, l);
                 let ok = if full_br.len() <= l { r.as_ref().map(|v| v == &full_br).unwrap_or(false) } else { matches!(r, Err(EvalErr::OutOfMemory)) };
                 if !ok {
